@@ -230,8 +230,9 @@ namespace igris
                     break;
 
                 default:
-                    _line.newdata(c);
-                    retcode = READLINE_ECHOCHAR;
+                    // a character the full line refused must not be echoed
+                    retcode = _line.newdata(c) ? READLINE_ECHOCHAR
+                                               : READLINE_OVERFLOW;
                     break;
                 }
                 break;
